@@ -176,6 +176,21 @@ def _oracle_c14(inputs, kind, val, env):
     return bad
 
 
+def damaged_name_collides(inputs):
+    """K1: does the damage turn the entry's name into a sibling's name (after AKAI decoding)?"""
+    alphabet = "0123456789 ABCDEFGHIJKLMNOPQRSTUVWXYZ#+-."
+    files = inputs["model"]["partitions"][0]["volumes"][0]["files"]
+    name = files[inputs["entry"]]["name"]
+    raw = [alphabet.index(c) for c in name.upper()] + [10] * (12 - len(name))
+    for (k, v) in inputs["damage"]:
+        if k < 12:
+            raw[k] = v
+    if any(b > 40 for b in raw):
+        return False
+    new = "".join(alphabet[b] for b in raw).strip()
+    return new != name and any(f["name"] == new for j, f in enumerate(files) if j != inputs["entry"])
+
+
 def _small_c14(tier, seed, shard=(0, 1)):
     import random
     names = ["AB", "AC", "AD"]
@@ -193,6 +208,9 @@ def _small_c14(tier, seed, shard=(0, 1)):
                 cases.append((entry, [(off, v)]))
         for _ in range(10 if tier == "quick" else 100):
             cases.append((entry, [(rnd.randrange(24), rnd.randrange(256)) for _ in range(rnd.randint(2, 6))]))
+        # the damaged name becomes a sibling's name (second letter B/C/D = 12/13/14)
+        for v in (12, 13, 14):
+            cases.append((entry, [(1, v)]))
     k = 0
     for entry, dmg in cases:
         # excluded by the format: bytes 8..9 == 47 D7 is the end-of-table marker (a truncation, not damage to one entry)
@@ -313,4 +331,223 @@ CONCRETE["e2e:C15"] = {
     "bound": "two AKAI images (directory after some of the data; a file listed first whose sectors come last; a stereo pair) cut at every "
              "sector boundary, 1 byte after it and around the 140-byte header end for sectors 3..14, plus 10/120 random interior offsets",
     "timeout_s": 60.0, "budget_quick": 250, "budget_thorough": 1500,
+}
+
+
+# ================================================================================== C16 history independence
+def _make_image(L, w, spec):
+    if spec["kind"] == "akai":
+        return w.file("img.akai", L.aw.build_akai_image(expand_akai(spec["model"])))
+    if spec["kind"] == "roland":
+        return w.file("img.s7xx", L.rw.build_roland_image(expand_roland(spec["model"])))
+    tracks = [{"number": i + 1, "mode": "AUDIO", "title": f"T{i}", "indices": [(1, 0, 0, 2 * i)]} for i in range(2)]
+    binb = L.pcm_words(3, 2352 * 2)[:2352 * 4 + 6]
+    return L.cw.write_bin_cue(w.sub("cd"), binb, L.cw.build_cue(tracks))
+
+
+def _do_op(L, image, op, w, tag):
+    if op[0] == "ls":
+        o, e = L.do_ls(image, op[1])
+        return {"out": o, "error": type(e).__name__ if e else None}
+    out = w.sub("out_" + tag)
+    o, e = L.do_export(image, out)
+    return {"out": o, "error": type(e).__name__ if e else None, "files": L.read_tree(out)}
+
+
+def _build_c16(inputs):
+    L = _lib()
+
+    def run():
+        with L.Workdir() as w:
+            path = _make_image(L, w, inputs["image"])
+            with open(path, "rb") as f:
+                before = f.read()
+            shared = L.open_image(path)
+            got, want = [], []
+            for k, op in enumerate(inputs["ops"]):
+                got.append(_do_op(L, shared, op, w, f"s{k}"))
+                want.append(_do_op(L, L.open_image(path), op, w, f"f{k}"))
+            with open(path, "rb") as f:
+                after = f.read()
+            return {"shared": got, "fresh": want, "image_unchanged": before == after}
+    return {"call": run, "env": {}}
+
+
+def _oracle_c16(inputs, kind, val, env):
+    if kind != "return":
+        return []
+    bad = []
+    if not val["image_unchanged"]:
+        bad.append("image-file-never-modified")
+    for k, (g, w_) in enumerate(zip(val["shared"], val["fresh"])):
+        if g != w_:
+            what = "files" if g.get("files") != w_.get("files") else "output"
+            detail = ""
+            if what == "files":
+                diff = [p for p in w_.get("files", {}) if g.get("files", {}).get(p) != w_["files"][p]][:2]
+                detail = f": {diff} sizes {[len(g.get('files', {}).get(p, b'')) for p in diff]} vs {[len(w_['files'][p]) for p in diff]}"
+            bad.append(f"operation-{k}-{inputs['ops'][k][0]}-same-as-on-a-fresh-object({what}{detail}; after {inputs['ops'][:k]})")
+            break
+    return bad
+
+
+def _small_c16(tier, seed, shard=(0, 1)):
+    import itertools
+    images = [
+        {"kind": "akai", "model": _base_akai(), "paths": ["", "A:", "A:/VOL A", "A:/VOL A/KICK", "B:/LAST", "nope/x"]},
+        {"kind": "cdda", "paths": ["", "T0", "zzz"]},
+        {"kind": "roland", "model": _base_roland(), "paths": ["", "V1", "V1/P1", "V1/P1/S0", "_Orphan_perf", "bad"]},
+    ]
+    k = 0
+    maxlen = 2 if tier == "quick" else 3
+    for im in images:
+        ops = [["ls", p] for p in im["paths"]] + [["export"]]
+        for n in range(2, maxlen + 1):
+            for seq in itertools.product(ops, repeat=n):
+                if tier == "quick" and n == 2 and seq[0][0] == "ls" and seq[1][0] == "ls" and (k % 3):
+                    k += 1
+                    continue
+                if n == 3 and sum(1 for o in seq if o[0] == "export") == 0 and (k % 5):
+                    k += 1
+                    continue
+                k += 1
+                if k % shard[1] == shard[0]:
+                    yield {"image": {x: im[x] for x in im if x != "paths"}, "ops": [list(o) for o in seq]}
+
+
+@contract("e2e:C16", props=["C16"], abstract=True)
+def _c16(c):
+    pass
+
+
+CONCRETE["e2e:C16"] = {
+    "build": _build_c16, "small": _small_c16, "oracle": _oracle_c16, "shards": 8,
+    "nontrivial": lambda i, s: s["kind"] == "return",
+    "bound": "sequences of 2 (quick) / 3 (thorough) operations from {ls at 3..6 paths incl. an invalid one, export} on ONE opened image "
+             "object versus a fresh object per operation; AKAI, CDDA and Roland images; the image file compared before/after",
+    "timeout_s": 120.0, "budget_quick": 250, "budget_thorough": 1500,
+}
+
+
+# ================================================================================== C20 ls shows the stored values
+def _kv(out):
+    d = {}
+    for line in out.splitlines():
+        if ":" in line:
+            k, v = line.split(":", 1)
+            d.setdefault(k.strip(), []).append(v.strip())
+    return d
+
+
+def _build_c20(inputs):
+    L = _lib()
+
+    def run():
+        with L.Workdir() as w:
+            if inputs["kind"] == "akai":
+                p = w.file("img.akai", L.aw.build_akai_image(expand_akai(inputs["model"])))
+            elif inputs["kind"] == "roland":
+                p = w.file("img.s7xx", L.rw.build_roland_image(expand_roland(inputs["model"])))
+            else:
+                p = _make_image(L, w, {"kind": "cdda"})
+            res = {}
+            for path in inputs["paths"]:
+                o, e = L.do_ls(p, path)
+                res[path] = {"out": o, "error": type(e).__name__ if e else None}
+            return res
+    return {"call": run, "env": {}}
+
+
+NOTE_NAMES = ["A", "A#", "B", "C", "C#", "D", "D#", "E", "F", "F#", "G", "G#"]
+AKAI_LOOP_TYPES = {0: "Loop in release", 1: "Loop until release", 2: "No loop", 3: "Play until end"}
+ROLAND_LOOP = {0: "Forward End", 1: "Forward Release", 2: "Oneshot", 3: "Forward Oneshot", 4: "Alternate", 5: "Reverse Oneshot", 6: "Reverse Loop"}
+ROLAND_RATE = {0: 48000, 1: 44100, 2: 24000, 3: 22050, 4: 30000, 5: 15000}
+
+
+def _oracle_c20(inputs, kind, val, env):
+    if kind != "return":
+        return []
+    bad = []
+    for path, exp in inputs["expect"].items():
+        r = val[path]
+        if r["error"] or "was not found" in r["out"]:
+            bad.append(f"ls-renders({path}: {r['error'] or 'not found'})")
+            continue
+        kv = _kv(r["out"])
+        for key, want in exp.items():
+            got = kv.get(key)
+            want = want if isinstance(want, list) else [want]
+            if not want and got is None:
+                continue
+            if got is None or [str(x) for x in want] != got[:len(want)]:
+                bad.append(f"states-the-stored-value({path}: {key} expected {want}, printed {got})")
+    return bad
+
+
+def _akai_expect(h, fname):
+    pitch = h["pitch"] - 21
+    e = {"file_name": fname, "sample_name": h["sample_name"], "sample_type": "S3000 Sample" if h["id"] == 3 else "S1000 Sample",
+         "sample_rate": h["rate"] or 44100, "samples_cnt": h["count"], "start_sample": h["start"], "end_sample": h["end"],
+         "pitch_semi": h["semi"], "loop_type": AKAI_LOOP_TYPES[h["loop_type"]],
+         "note_pitch": f"{NOTE_NAMES[pitch % 12]}{pitch // 12}"}
+    if h["loop_type"] != 2:
+        act = [l for l in h.get("loops", []) if l["duration"] > 0]
+        e["loop_end"] = [l["at"] for l in act]
+        e["loop_duration"] = [l["duration"] for l in act]
+    return e
+
+
+def _small_c20(tier, seed, shard=(0, 1)):
+    import random
+    rnd = random.Random(7000 + seed)
+    k = 0
+    for _ in range(6 if tier == "quick" else 60):
+        files, expect = [], {}
+        for i in range(2):
+            words = rnd.randint(50, 400)
+            loops = [{"at": rnd.randint(20, 40), "fine": rnd.randint(0, 9), "coarse": rnd.randint(1, 15),
+                      "duration": rnd.choice((0, rnd.randint(1, 9000), 9999))} for _ in range(rnd.randint(0, 3))]
+            h = {"id": rnd.choice((1, 3)), "pitch": rnd.randint(21, 108), "sample_name": f"NM{rnd.randint(0, 999)}", "loop_type": rnd.randint(0, 3),
+                 "cents": rnd.randint(-128, 127), "semi": rnd.randint(-50, 50), "count": words, "start": rnd.randint(0, 10),
+                 "end": rnd.randint(11, words), "rate": rnd.choice((0, 11025, 22050, 44100, 48000, rnd.randint(1, 65535))), "loops": loops}
+            f = {"name": f"FILE{i}", "type": 0xF3 if h["id"] == 3 else 0x73, "header": h, "pcm": {"seed": i, "words": words}}
+            files.append(f)
+            expect[f"A:/V/FILE{i}"] = _akai_expect(h, f"FILE{i}")
+        k += 1
+        if k % shard[1] == shard[0]:
+            yield {"kind": "akai", "model": {"partitions": [{"volumes": [_vol("V", files)]}]}, "paths": list(expect), "expect": expect}
+    for _ in range(3 if tier == "quick" else 30):
+        mode, freq = rnd.randint(0, 6), rnd.randint(0, 5)
+        pts = sorted(rnd.sample(range(0, 500), 5))
+        fine = {n: rnd.randint(0, 255) for n in ("start", "sustain_start", "sustain_end", "release_start", "release_end")}
+        s = _rsample("RS", 600, 9, mode=mode, freq=freq)
+        s["points"] = {"start": pts[0], "sustain_start": pts[1], "sustain_end": pts[2], "release_start": pts[3], "release_end": pts[4]}
+        s["fine"] = fine
+        m = _base_roland()
+        m["samples"][0] = s
+        exp = {"V1/P1/RS": {"loop_mode": ROLAND_LOOP[mode], "sampling_frequency": ROLAND_RATE[freq],
+                            "address": [pts[0], pts[1], pts[2], pts[3], pts[4]],
+                            "fine": [fine["start"], fine["sustain_start"], fine["sustain_end"], fine["release_start"], fine["release_end"]]}}
+        k += 1
+        if k % shard[1] == shard[0]:
+            yield {"kind": "roland", "model": m, "paths": list(exp), "expect": exp}
+    k += 1
+    if k % shard[1] == shard[0]:
+        yield {"kind": "cdda", "paths": ["T0", "T1"],
+               "expect": {"T0": {"num_channels": 2, "sample_rate": 44100, "num_audio_samples": 588 * 2},
+                          "T1": {"num_channels": 2, "sample_rate": 44100, "num_audio_samples": 588 * 2}}}
+
+
+@contract("e2e:C20", props=["C20"], abstract=True)
+def _c20(c):
+    pass
+
+
+CONCRETE["e2e:C20"] = {
+    "build": _build_c20, "small": _small_c20, "oracle": _oracle_c20, "shards": 4,
+    "nontrivial": lambda i, s: s["kind"] == "return",
+    "bound": "6/60 AKAI images with two samples each whose header fields all carry their own random in-range values (names, type, rate incl. 0, "
+             "count, start/end, semitone, loop mode, active loops' end point and duration), 3/30 Roland samples (mode, frequency code, the five "
+             "loop points' coarse and fine parts), one CDDA image; printed `key: value` lines compared with the model",
+    "timeout_s": 60.0, "budget_quick": 120, "budget_thorough": 900,
 }
